@@ -1,17 +1,20 @@
-\* exhaustive check of the repaired design, one service instance: every kind, N in {2,3,4}, limit in {0,1,2}
+\* exhaustive check of the code as it is (repaired design), one service instance: every kind, N in {2,3,4},
+\* limit in {0,1,2}, occupancy limit-1 and limit-2, with list requests and removals of absent ids
 \*   tlc -config Limits_mc.cfg Limits.tla        (expected: no error)
 CONSTANTS
   Kinds = {"conncap", "ctrlcap", "tuncap", "maplimit", "codequota", "mapquota"}
   NS = {2, 3, 4}
   Lims = {0, 1, 2}
   NodeCounts = {1}
-  LockKeys = {"owner"}
-  Variants = {}
+  Variants = {"none"}
+  Shape = "free"
   MaxReRel = 2
-  Slacks = {1}
+  Slacks = {1, 2}
+  Listers = 1
   FixedKinds = {"conncap", "maplimit", "maplive", "codequota", "mapquota"}
   WithRelease = TRUE
   Emit = FALSE
+  EmitMaxN = 4
   EmitAll = FALSE
 INIT Init
 NEXT Next
